@@ -20,6 +20,14 @@ SIGS = {"invariant:ObsQuorum": "answer-not-an-agreeing-largest-quorum",
         "invariant:ObsDrained": "drain-left-responses-unconsumed"}
 
 
+DATAS = ("d1", "d2", "d3")
+
+
+def _multi(c):
+    """a case in which at least two different data groups can reach the threshold (over-approximation from the input)"""
+    return sum(1 for d in DATAS if c["order"].count(d) >= c["T"]) >= 2
+
+
 def _run_cases(ctx, cases, tag, conf=False):
     binp = vlib.go_build("quorum")
     cpath = os.path.join(ctx.work, tag + "_cases.json")
@@ -27,14 +35,16 @@ def _run_cases(ctx, cases, tag, conf=False):
     vlib.write_json(cpath, cases)
     vlib.run_harness(binp, [cpath, tpath], env={"VERIF_REPO": vlib.REPO})
     rows = vlib.read_ndjson(tpath)
-    if len(rows) != len(cases):
-        raise vlib.Infra("quorum driver answered %d of %d cases" % (len(rows), len(cases)))
+    want = sum(max(1, c.get("reps", 1)) for c in cases)
+    if len(rows) != want:
+        raise vlib.Infra("quorum driver answered %d of %d executions" % (len(rows), want))
     res = vlib.tlc_trace(ctx, "Trace_Quorum", "Trace_Quorum.cfg", tpath, env={"VERIF_CONF": "1" if conf else "0"},
                          tag=tag + ("_conf" if conf else "_obs"))
     return rows, res
 
 
 def _bad(rows, res):
+    """(index of the failing case, violated invariant, failing row) or None"""
     if res["accepted"]:
         return None
     if res["violated"] == "postcondition" or not str(res["violated"]).startswith("invariant:"):
@@ -42,7 +52,7 @@ def _bad(rows, res):
     line = vlib.violated_line(res)
     if line is None or line < 1:
         raise vlib.Infra("cannot locate violating case (see %s)" % res["outfile"])
-    return line - 1, res["violated"]
+    return rows[line - 1]["i"], res["violated"], rows[line - 1]
 
 
 def run(ctx):
@@ -59,10 +69,15 @@ def run(ctx):
         rnd.shuffle(big)
         big = big[:400]
     cases = small + big
-    ctx.cov["evaluations"] = len(cases)
+    # the selection iterates a Go map: cases in which several data groups can reach the threshold are executed
+    # repeatedly so that every iteration order is seen (2 or 3 groups => 2 or 6 orders)
+    for c in cases:
+        c["reps"] = ctx.pick(12, 30) if _multi(c) else 1
+    ctx.cov["evaluations"] = sum(c["reps"] for c in cases)
     ctx.cov["rule"] = ("case = (arrival order of 1..4 responses over {d1,d2,d3,empty,nodeErr,protoErr}, threshold 1..n, drain flag) "
                        "emitted by TLC from Quorum.tla Init; quick: all orders of length <= 3 and 400 seeded orders of length 4, "
-                       "thorough: all 11820; non-trivial = at least two successful responses")
+                       "thorough: all 11820; cases where two data groups can reach the threshold are executed 12 (quick) / 30 (thorough) times because "
+                       "the selection iterates a Go map; non-trivial = at least two successful responses")
     ctx.cov["distinct_nontrivial"] = len({vlib.json.dumps(c, sort_keys=True) for c in cases
                                           if sum(1 for k in c["order"] if k in ("d1", "d2", "d3", "empty")) >= 2})
     ctx.sample(cases[len(cases) // 2])
@@ -70,6 +85,22 @@ def run(ctx):
     kinds = {r["res"] for r in rows}
     if not ({"error", "empty", "d1"} <= kinds) or not any(r["early"] for r in rows) or not any(r["drain"] and r["cnt"] == 4 for r in rows):
         raise vlib.Infra("vacuous: answers seen %s" % sorted(kinds))
+    # "largest group" clause: executions in which >= 2 consumed data groups reach the threshold, with different sizes
+    def groups_at(r):
+        return sorted(v for v in r["g"].values() if v >= r["T"])
+    multi_rows = [r for r in rows if len(groups_at(r)) >= 2]
+    uneven = [r for r in multi_rows if groups_at(r)[0] != groups_at(r)[-1]]
+    ties = [r for r in multi_rows if groups_at(r)[0] == groups_at(r)[-1]]
+    tie_answers = {}
+    for r in ties:
+        tie_answers.setdefault(r["i"], set()).add(r["res"])
+    if len(uneven) < 200 or len({r["i"] for r in uneven}) < 10 or len(ties) < 100:
+        raise vlib.Infra("vacuous: only %d executions (%d cases) with two unequal groups at or above the threshold, %d tie executions" % (
+            len(uneven), len({r["i"] for r in uneven}), len(ties)))
+    ctx.cov["executions_with_two_unequal_groups_at_threshold"] = len(uneven)
+    ctx.cov["cases_with_two_unequal_groups_at_threshold"] = len({r["i"] for r in uneven})
+    ctx.cov["tie_executions"] = len(ties)
+    ctx.cov["tie_cases_where_both_groups_were_returned"] = sum(1 for v in tie_answers.values() if len(v) >= 2)
     ctx.cov["answers_seen"] = {k: sum(1 for r in rows if r["res"] == k) for k in sorted(kinds)}
     ctx.cov["early_exits"] = sum(1 for r in rows if r["early"])
     ctx.cov["traces_validated_against_impl"] += len(cases)
@@ -79,16 +110,20 @@ def run(ctx):
                         "LAV1 REST parser decides what a node error is (status 500 body)"]
     b = _bad(rows, res)
     if b:
-        idx, inv = b
-        rows2, res2 = _run_cases(ctx, [cases[idx]], "repro")
+        idx, inv, _ = b
+        # the code may be nondeterministic (map iteration): re-execute the case 40 times in a fresh driver process;
+        # any execution failing the same predicate again is a reproduction (the property quantifies over all runs)
+        again = dict(cases[idx], reps=40)
+        rows2, res2 = _run_cases(ctx, [again], "repro")
         b2 = _bad(rows2, res2)
-        if not b2:
-            raise vlib.Infra("counter-example not reproduced: case %s" % vlib.json.dumps(cases[idx]))
-        r = rows2[0]
-        ctx.violation("%s@res=%s" % (SIGS.get(b2[1], b2[1]), r["res"]),
-                      "real RelayProcessor: order %s threshold %d drain %s consumed %s answered %s (cv=%s)" % (
-                          r["order"], r["T"], r["drain"], {"g": r["g"], "e": r["e"], "ne": r["ne"], "pe": r["pe"]}, r["res"], r["cv"]),
-                      {"cases": [cases[idx]]})
+        if not b2 or b2[1] != inv:
+            raise vlib.Infra("counter-example not reproduced in 40 re-executions: case %s" % vlib.json.dumps(cases[idx]))
+        r = b2[2]
+        fails = "first failing re-execution #%d of 40" % r["rep"]
+        ctx.violation("%s@res=%s" % (SIGS.get(inv, inv), r["res"]),
+                      "real RelayProcessor: order %s threshold %d drain %s consumed %s answered %s (cv=%s); %s" % (
+                          r["order"], r["T"], r["drain"], {"g": r["g"], "e": r["e"], "ne": r["ne"], "pe": r["pe"]}, r["res"], r["cv"], fails),
+                      {"cases": [again]})
         return
     if ctx.quick:
         return
@@ -103,5 +138,5 @@ def replay(ctx, path):
     rows, res = _run_cases(ctx, obj["cases"], "replay")
     b = _bad(rows, res)
     if b:
-        r = rows[b[0]]
+        r = b[2]
         ctx.violation("%s@res=%s" % (SIGS.get(b[1], b[1]), r["res"]), "replayed case still fails: %s" % vlib.json.dumps(r)[:400], obj)
